@@ -706,6 +706,7 @@ Definition spec_step (sp : spec) (o : op) : option (res * spec) :=
       | None => None end
   | RRelease | RReleaseReuse => Some (RUnit, sp)
   | RClose => Some (RUnit, with_av sp [])
+  | RPeerClose => Some (RUnit, sp)     (* the peer's close changes nothing the reader can observe before it reads on *)
   | OAlloc _ => Some (RUnit, sp)      (* result depends on the allocator, not on the byte queue *)
   | OFill _ _ | OFree _ => Some (RUnit, sp)
   end.
@@ -1004,7 +1005,9 @@ Proof.
     injection H as _ <-. exact G.
   - pose proof (release_reserve_same_data (mem s) (rcv s)) as G. destruct (release_reserve (mem s) (rcv s)) as [m1 l1].
     injection H as _ <-. exact G.
-  - unfold lb_recycle in H. injection H as _ <-. cbn [mem with_mem_rcv]. apply same_data_recycle_all.
+  - unfold lb_recycle in H. pose proof (clean_pinned_same_data (mem s) (rcv s)) as G.
+    destruct (clean_pinned (mem s) (rcv s)) as [m1 l1]. cbn [fst] in G. injection H as _ <-. cbn [mem with_mem_rcv].
+    eapply same_data_trans; [exact G|apply same_data_recycle_all].
   - unfold allocShmBuffer in H. destruct (n <=? last (cls (mem s)) 0).
     + destruct (alloc_first (mem s) n (cls (mem s)) 0) as [[b m1]|] eqn:E.
       * injection H as _ <-. cbn [mem]. eapply alloc_first_same_data; exact E.
